@@ -17,14 +17,11 @@ import numpy as np
 
 from .common import plist, frac
 
-THEOREMS = [
-]
-MODULES = ['Pyiga.Model.Tensor']
-try:
-    from .c18_theorems import THEOREMS as _T, MODULES as _M   # written together with the Lean files
-    THEOREMS, MODULES = _T, _M
-except Exception:
-    pass
+THEOREMS = ['Pyiga.Props.C18.' + t for t in (
+    'faithful_neg', 'faithful_add', 'faithful_sub', 'join_tucker_bases_spec', 'faithful_can_to_tucker',
+    'from_tensor_order1_raises', 'asarray_idem', 'faithful_tsum', 'step_faithful', 'faithful_seq_partial', 'aca_cross')]
+MODULES = ['Pyiga.Model.Tensor', 'Pyiga.Proofs.TensorBasic', 'Pyiga.Proofs.TensorArith', 'Pyiga.Proofs.TensorOps',
+           'Pyiga.Proofs.TensorAdd', 'Pyiga.Proofs.TensorAddSpec', 'Pyiga.Props.C18']
 
 SL = 'N'
 
@@ -442,10 +439,9 @@ def gen_sequence(ctx, rng, order, nsteps):
 def run(ctx):
     ctx.build_repo()
     from pyiga import tensor, lowrank
-    ctx.require_lean(['Pyiga.Model.Tensor', 'drv_c18'] + [m for m in MODULES if m.startswith('Pyiga.Props')])
-    if THEOREMS:
-        ctx.audit([m for m in MODULES if m.startswith('Pyiga.Props')], THEOREMS, MODULES)
-    if ctx.tier == 'thorough' and THEOREMS:
+    ctx.require_lean(['Pyiga.Props.C18', 'drv_c18'])
+    ctx.audit(['Pyiga.Props.C18'], THEOREMS, MODULES)
+    if ctx.tier == 'thorough':
         ctx.leanchecker(MODULES)
     quick = ctx.tier == 'quick'
     rng = ctx.rng
